@@ -21,14 +21,16 @@ pub struct Case {
     pub u: Term,
     pub v: Term,
     pub ground: Vec<Term>,
+    pub nv: usize,
 }
 
 fn show_case(c: &Case) -> String {
+    let nv = c.nv;
     let mut s = String::new();
     for (a, b) in &c.priors {
-        s.push_str(&format!("{} == {}, ", show_term(a, NV), show_term(b, NV)));
+        s.push_str(&format!("{} == {}, ", show_term(a, nv), show_term(b, nv)));
     }
-    s.push_str(&format!("{} == {}", show_term(&c.u, NV), show_term(&c.v, NV)));
+    s.push_str(&format!("{} == {}", show_term(&c.u, nv), show_term(&c.v, nv)));
     s
 }
 
@@ -54,12 +56,12 @@ fn decode(s: &mut Source, cfg: &TermCfg) -> Case {
     // a candidate ground instantiation for the "any other unifier is an instance" check
     let gcfg = TermCfg { vars: vec![], max_depth: 1, ..cfg.clone() };
     let ground = (0..NV).map(|_| gen_term(s, &gcfg, 0)).collect();
-    Case { priors, u, v, ground }
+    Case { priors, u, v, ground, nv: NV }
 }
 
 /// walk* with a depth bound on the raw substitution: None = cyclic (or absurdly deep)
 fn safe_resolve(st: &State<U, E>, t: &LT, depth: usize) -> Option<LT> {
-    if depth > 200 {
+    if depth > 60_000 {
         return None;
     }
     let w = st.smap_ref().walk(t).clone();
@@ -101,8 +103,9 @@ struct StateRes {
 }
 
 fn state_level(c: &Case, swap: bool) -> StateRes {
+    let nv = c.nv;
     let env = Env::new();
-    let xs: Vec<LT> = (0..NV).map(|i| env.var(i as VarId)).collect();
+    let xs: Vec<LT> = (0..nv).map(|i| env.var(i as VarId)).collect();
     let mut st: State<U, E> = State::new(VUser::default());
     let mut prior_ok = vec![];
     for (a, b) in &c.priors {
@@ -138,13 +141,14 @@ fn state_level(c: &Case, swap: bool) -> StateRes {
             }
             let mut ub = Unbuilder::new();
             let ts: Vec<Term> = imgs.iter().map(|t| ub.term(t)).collect();
-            let sides_equal = ts[NV] == ts[NV + 1] && imgs[NV] == imgs[NV + 1];
-            StateRes { prior_ok, ok: true, cyclic, sides_equal, image: canon_tuple(&ts[..NV]) }
+            let sides_equal = ts[nv] == ts[nv + 1] && imgs[nv] == imgs[nv + 1];
+            StateRes { prior_ok, ok: true, cyclic, sides_equal, image: canon_tuple(&ts[..nv]) }
         }
     }
 }
 
 fn reference(c: &Case) -> (Vec<bool>, Option<Vec<Term>>) {
+    let nv = c.nv;
     let mut s = Subst::new();
     let mut prior_ok = vec![];
     for (a, b) in &c.priors {
@@ -157,7 +161,7 @@ fn reference(c: &Case) -> (Vec<bool>, Option<Vec<Term>>) {
         }
     }
     let r = unify(&s, &c.u, &c.v).map(|s| {
-        let ts: Vec<Term> = (0..NV).map(|i| s.apply(&Term::Var(i as VarId))).collect();
+        let ts: Vec<Term> = (0..nv).map(|i| s.apply(&Term::Var(i as VarId))).collect();
         canon_tuple(&ts)
     });
     (prior_ok, r)
@@ -193,6 +197,7 @@ fn classify(c: &Case, info: &mut CaseInfo, ref_ok: bool) {
 }
 
 pub fn eval(c: &Case, ctx: &Ctx) -> CaseInfo {
+    let nv = c.nv;
     let mut info = CaseInfo::default();
     let desc = show_case(c);
     info.key = hash_str(&desc);
@@ -241,7 +246,7 @@ pub fn eval(c: &Case, ctx: &Ctx) -> CaseInfo {
     // (b) query level
     let mut body: Vec<Goal> = c.priors.iter().map(|(a, b)| Goal::Eq(a.clone(), b.clone())).collect();
     body.push(Goal::Eq(c.u.clone(), c.v.clone()));
-    let prog = Program { nq: NV, body };
+    let prog = Program { nq: nv, body };
     let all_priors = ref_priors.iter().all(|b| *b);
     let expected: Option<Vec<Term>> = if all_priors { ref_img.clone() } else { None };
     let out = run::run(&prog, Mode::Bfs, Limits::all());
@@ -276,8 +281,8 @@ pub fn eval(c: &Case, ctx: &Ctx) -> CaseInfo {
         } else {
             g
         };
-        body2.push(Goal::Eq(Term::list((0..NV).map(|i| Term::Var(i as VarId)).collect()), Term::list(g.clone())));
-        let p2 = Program { nq: NV, body: body2 };
+        body2.push(Goal::Eq(Term::list((0..nv).map(|i| Term::Var(i as VarId)).collect()), Term::list(g.clone())));
+        let p2 = Program { nq: nv, body: body2 };
         let mut s = Subst::new();
         let mut ok = true;
         for gl in &p2.body {
@@ -297,7 +302,7 @@ pub fn eval(c: &Case, ctx: &Ctx) -> CaseInfo {
             if got != ok {
                 info.fail(
                     if ok { "C01:instance-of-mgu-rejected" } else { "C01:non-unifier-accepted" },
-                    format!("{}\n  extended with (q0..q3) == {:?}: impl has answer = {}, reference = {}", desc, g.iter().map(|t| show_term(t, NV)).collect::<Vec<_>>(), got, ok),
+                    format!("{}\n  extended with (q0..q3) == {:?}: impl has answer = {}, reference = {}", desc, g.iter().map(|t| show_term(t, nv)).collect::<Vec<_>>(), got, ok),
                 );
             }
             if ok {
@@ -334,6 +339,124 @@ fn run_lists(bytes: &[u8], ctx: &Ctx) -> CaseInfo {
     eval(&c, ctx)
 }
 
+/// Scale family: one dimension is large (spine length / nesting depth of a term, number of
+/// variables in a chain of var-var equations), everything else small.
+fn decode_scale(s: &mut Source, thorough: bool) -> Case {
+    use crate::gen::scale::{self, big_term, elements, SPINES};
+    let cap = scale::cap(thorough);
+    let template = s.weighted(&[3, 3, 4]);
+    let small = |s: &mut Source, vars: &[VarId]| -> Term {
+        let cfg = TermCfg { max_depth: 1, max_len: 2, ..TermCfg::small_ints(vars.to_vec()) };
+        gen_term(s, &cfg, 0)
+    };
+    match template {
+        // a variable (or small term) against a big term that may contain it deep down
+        0 => {
+            let nv = 1 + s.below(4);
+            let vars: Vec<VarId> = (0..nv as VarId).collect();
+            let n = scale::size(s, cap);
+            let shape = SPINES[s.below(SPINES.len())];
+            let el = elements(s, n, &vars, 3);
+            let end = if s.flag(170) { Term::Var(vars[s.below(nv)]) } else { small(s, &vars) };
+            let big = big_term(shape, n, &mut |i| el[i].clone(), end);
+            let other = if s.flag(190) { Term::Var(vars[s.below(nv)]) } else { small(s, &vars) };
+            let mut priors = vec![];
+            if s.flag(90) {
+                // reach the big term through a prior binding
+                let y = vars[s.below(nv)];
+                priors.push((Term::Var(y), small(s, &vars)));
+            }
+            let (u, v) = if s.flag(128) { (big, other) } else { (other, big) };
+            let ground = (0..nv).map(|_| small(s, &[])).collect();
+            Case { priors, u, v, ground, nv }
+        }
+        // two big terms that differ in at most a few positions
+        1 => {
+            let nv = 1 + s.below(4);
+            let vars: Vec<VarId> = (0..nv as VarId).collect();
+            let n = scale::size(s, cap);
+            let shape = SPINES[s.below(SPINES.len())];
+            let el = elements(s, n, &vars, 4);
+            let end = small(s, &vars);
+            let u = big_term(shape, n, &mut |i| el[i].clone(), end.clone());
+            let mut el2 = el.clone();
+            let changes = s.below(3);
+            for _ in 0..changes {
+                let pos = s.below(n);
+                el2[pos] = small(s, &vars);
+            }
+            let end2 = if s.flag(60) { small(s, &vars) } else { end };
+            // occasionally one element longer / shorter
+            let n2 = match s.weighted(&[6, 1, 1]) {
+                0 => n,
+                1 => n + 1,
+                _ => n.saturating_sub(1).max(1),
+            };
+            let v = big_term(shape, n2, &mut |i| el2.get(i).cloned().unwrap_or(Term::Int(0)), end2);
+            let ground = (0..nv).map(|_| small(s, &[])).collect();
+            Case { priors: vec![], u, v, ground, nv }
+        }
+        // a long chain of var-var equations posted in some systematic or random order
+        _ => {
+            let n = scale::size(s, cap).max(2);
+            let nv = n + 1;
+            let order: Vec<usize> = match s.weighted(&[3, 2, 2]) {
+                0 => (0..n).collect(),
+                1 => (0..n).rev().collect(),
+                _ => s.permutation(n),
+            };
+            let orient = s.weighted(&[3, 2, 2]); // forward, backward, mixed
+            let mut priors = vec![];
+            for (k, i) in order.iter().enumerate() {
+                let (a, b) = (Term::Var(*i as VarId), Term::Var((*i + 1) as VarId));
+                let fwd = match orient {
+                    0 => true,
+                    1 => false,
+                    _ => (k + *i) % 3 != 0,
+                };
+                priors.push(if fwd { (a, b) } else { (b, a) });
+            }
+            let pickv = |s: &mut Source| -> VarId {
+                match s.weighted(&[2, 2, 3]) {
+                    0 => 0,
+                    1 => n as VarId,
+                    _ => s.below(nv) as VarId,
+                }
+            };
+            if s.flag(170) {
+                // bind a member of the chain to a value, at a random point of the posting order
+                let x = pickv(s);
+                let val = if s.flag(200) { Term::Int(5) } else { Term::list(vec![Term::Int(1), Term::Var(pickv(s))]) };
+                let at = s.below(priors.len() + 1);
+                let at = if s.flag(128) { priors.len() } else { at };
+                priors.insert(at, (Term::Var(x), val));
+            }
+            let x = pickv(s);
+            let (u, v) = match s.weighted(&[3, 2, 2, 2]) {
+                0 => (Term::Var(x), Term::Int(if s.flag(128) { 5 } else { 6 })),
+                1 => (Term::Var(x), Term::Var(pickv(s))),
+                2 => (Term::Var(x), Term::list(vec![Term::Int(0), Term::Var(pickv(s))])),
+                _ => (Term::Var(x), Term::Cmp(Kind::Pair, vec![Term::Var(pickv(s)), Term::Int(1)])),
+            };
+            let (u, v) = if s.flag(128) { (v, u) } else { (u, v) };
+            let ground = (0..nv).map(|i| Term::Int((i % 2) as i64 + 5)).collect();
+            Case { priors, u, v, ground, nv }
+        }
+    }
+}
+
+fn run_scale(bytes: &[u8], ctx: &Ctx) -> CaseInfo {
+    let mut s = Source::new(bytes);
+    let c = decode_scale(&mut s, ctx.tier == Tier::Thorough);
+    if std::env::var("PVH_SHOW").is_ok() {
+        eprintln!("SHOW {}", show_case(&c));
+    }
+    let mut info = eval(&c, ctx);
+    let big = c.priors.len().max(c.u.depth()).max(c.v.depth());
+    info.class(if big >= 256 { "scale>=256" } else if big >= 64 { "scale>=64" } else if big >= 16 { "scale>=16" } else { "scale<16" });
+    info
+}
+
 fn fixed_occurs(ctx: &Ctx) -> CaseInfo {
     // x == [x]; through a compound; through a prior binding
     let x = Term::Var(0);
@@ -343,6 +466,7 @@ fn fixed_occurs(ctx: &Ctx) -> CaseInfo {
         u: x.clone(),
         v: Term::list(vec![Term::Int(0), y.clone()]),
         ground: vec![Term::Int(0); NV],
+        nv: NV,
     };
     eval(&c, ctx)
 }
@@ -353,6 +477,7 @@ fn fixed_improper(ctx: &Ctx) -> CaseInfo {
         u: Term::improper(vec![Term::Int(1), Term::Var(0)], Term::Var(1)),
         v: Term::improper(vec![Term::Var(2), Term::Int(2)], Term::Int(3)),
         ground: vec![Term::Int(2), Term::Int(3), Term::Int(1), Term::Nil],
+        nv: NV,
     };
     eval(&c, ctx)
 }
@@ -383,7 +508,7 @@ fn exhaustive(ctx: &Ctx, emit: Emit) -> String {
     let n = all.len();
     for u in &all {
         for v in &all {
-            let c = Case { priors: vec![], u: u.clone(), v: v.clone(), ground: vec![Term::Int(0), Term::Int(1), Term::Nil, Term::Int(0)] };
+            let c = Case { priors: vec![], u: u.clone(), v: v.clone(), ground: vec![Term::Int(0), Term::Int(1), Term::Nil, Term::Int(0)], nv: NV };
             emit(eval(&c, &quiet));
         }
     }
@@ -393,11 +518,12 @@ fn exhaustive(ctx: &Ctx, emit: Emit) -> String {
 pub fn def() -> PropertyDef {
     PropertyDef {
         id: "C01",
-        rule: "0-3 prior equations then `u == v` over literals of every kind, 4 shared variables, proper/improper lists and 6 compound kinds (depth <= 3); v is a mutation of u with weight 0.6 (sub-term -> variable, variable buried under a constructor, children swapped, tag/arity/tail changed). Oracle: Robinson unification with occurs check on the AST (success both directions, cycle-freedom of the raw substitution, walk*(u)==walk*(v), image of (q0..q3) isomorphic to the reference mgu, symmetry), the same at query level, and an instance check: the program extended with (q0..q3)==g has an answer iff g unifies with the constraints. Non-trivial = both sides non-variable sharing a variable, or priors present; distinct = hash of the printed case",
+        rule: "0-3 prior equations then `u == v` over literals of every kind, 4 shared variables, proper/improper lists and 6 compound kinds (depth <= 3); v is a mutation of u with weight 0.6 (sub-term -> variable, variable buried under a constructor, children swapped, tag/arity/tail changed). Oracle: Robinson unification with occurs check on the AST (success both directions, cycle-freedom of the raw substitution, walk*(u)==walk*(v), image of (q0..q3) isomorphic to the reference mgu, symmetry), the same at query level, and an instance check: the program extended with (q0..q3)==g has an answer iff g unifies with the constraints. Non-trivial = both sides non-variable sharing a variable, or priors present; distinct = hash of the printed case. Family `scale`: the same oracles with one large dimension - a variable or small term against a spine of up to 400 (thorough 2000) levels (list, improper list, successor nesting, Pair/Node nesting, head nesting) that may contain it deep down, two long near-identical terms, chains of up to 400 var-var equations posted ascending / descending / shuffled and oriented forward / backward / mixed, then a member of the chain is decided",
         assumptions: vec!["the 60-line reference unifier (model/unify.rs) is correct; it has its own unit test and shares no code with the implementation"],
         families: vec![
             Family { name: "all-kinds", max_len: 96, quick: 150_000, thorough: 4_000_000, run: run_family },
             Family { name: "lists-dense", max_len: 96, quick: 150_000, thorough: 4_000_000, run: run_lists },
+            Family { name: "scale", max_len: 64, quick: 24_000, thorough: 400_000, run: run_scale },
         ],
         fixed: vec![Fixed { name: "occurs-through-prior-and-compound", run: fixed_occurs }, Fixed { name: "improper-tails", run: fixed_improper }],
         witnesses: vec![],
